@@ -90,7 +90,8 @@ type Sim struct {
 	running *Task
 	live    int
 
-	tape *Tape
+	tape  *Tape
+	pools map[*sync.Pool][]any // what sync.Pools hold in this run (PoolGet / PoolPut)
 
 	Start    time.Time
 	Steps    int
